@@ -12,7 +12,7 @@ import (
 )
 
 func init() {
-	props["C05"] = &propDef{run: runC05, explanation: "Partial (thin): that the 377-line recursive-descent re-serialiser and the number formatter produce the RFC 8785 form for every I-JSON value (fixed point, value preservation, spelling independence) is value-level and NOT decided. Decided statically — the constants and tables the RFC fixes, each a necessary condition: (T1) the two escape tables hold the seven RFC 8785 two-character escapes pairwise aligned, and reader and writer index both tables with one loop variable; (K1) the writer emits the remaining control characters (< 0x20) with the format \\u%04x (lower-case hex) and the reader rejects raw control bytes inside strings; (K2) NumberToJSON rejects NaN/Infinity by the exponent mask 0x7ff0000000000000, maps ±0 to \"0\", and selects fixed notation exactly for 1e-6 ≤ |x| < 1e21; (P1) the member sort key is unicode/utf16.Encode of the runes of the parsed member name, the ordering function reads only sort keys, equal keys raise an error, and a preceding key is inserted before the compared element; (P2) MarshalCanonical hands every value to Transform (json.Marshal first unless it already is []byte); (K3) the whitespace set is {0x20,0x0a,0x0d,0x09} and the literal table {true,false,null}. (K2) every string-valued call the accepted number text depends on is strconv.FormatFloat; (P2) canonicalisation, hashing and commitment functions read no package-level state that changes after initialisation. A string token is emitted as writer(reader()) (P4). With no differing code unit the shorter sort key precedes, equal keys raise the duplicate error, a longer key does not precede (three orderings of the two lengths). (K4) the value of a \\uXXXX escape is the library's base-16 parse of its digits; (K3) no byte cut from a wider integer is written, every byte set that mentions whitespace holds all four whitespace characters. Nothing orders two strings as strings; scanner rules K5 (escape values uncompared, string bytes not through the ASCII-only reader, table searches found/not-found only, structural characters through the skipping scanner, position loops advance)."}
+	props["C05"] = &propDef{run: runC05, explanation: "Partial (thin): that the 377-line recursive-descent re-serialiser and the number formatter produce the RFC 8785 form for every I-JSON value (fixed point, value preservation, spelling independence) is value-level and NOT decided. Decided statically — the constants and tables the RFC fixes, each a necessary condition: (T1) the two escape tables hold the seven RFC 8785 two-character escapes pairwise aligned, and reader and writer index both tables with one loop variable; (K1) the writer emits the remaining control characters (< 0x20) with the format \\u%04x (lower-case hex) and the reader rejects raw control bytes inside strings; (K2) NumberToJSON rejects NaN/Infinity by the exponent mask 0x7ff0000000000000, maps ±0 to \"0\", and selects fixed notation exactly for 1e-6 ≤ |x| < 1e21; (P1) the member sort key is unicode/utf16.Encode of the runes of the parsed member name, the ordering function reads only sort keys, equal keys raise an error, and a preceding key is inserted before the compared element; (P2) MarshalCanonical hands every value to Transform (json.Marshal first unless it already is []byte); (K3) the whitespace set is {0x20,0x0a,0x0d,0x09} and the literal table {true,false,null}. (K2) every string-valued call the accepted number text depends on is strconv.FormatFloat; (P2) canonicalisation, hashing and commitment functions read no package-level state that changes after initialisation. A string token is emitted as writer(reader()) (P4). With no differing code unit the shorter sort key precedes, equal keys raise the duplicate error, a longer key does not precede (three orderings of the two lengths). (K4) the value of a \\uXXXX escape is the library's base-16 parse of its digits; (K3) no byte cut from a wider integer is written, every byte set that mentions whitespace holds all four whitespace characters. Nothing orders two strings as strings; scanner rules K5 (escape values uncompared, string bytes not through the ASCII-only reader, table searches found/not-found only, structural characters through the skipping scanner, position loops advance). (K5f) closed set of scanner refusals; (K5g) every exit of Transform behind the trailing-input loop; C19.A/B on the canonicalizer's functions."}
 }
 
 // globalByteSlice: constants of a package-level []byte / []string literal initialised in init.
@@ -418,7 +418,7 @@ func (c *Ctx) jcsRules() {
 				}
 				okArgs := true
 				for _, cl := range callsTo(ntj, g) {
-					if a := c.Path(cl.Call.Args[0], nil); a != "$0" && a != "-$0" {
+					if a := c.Path(cl.Call.Args[0], nil); a != "$0" && a != "-$0" && a != "phi($0|-$0)" && a != "phi(-$0|$0)" {
 						okArgs = false
 					}
 				}
@@ -1056,6 +1056,10 @@ func (c *Ctx) jcsRules() {
 	}
 	c.Min("C05.K3", 4)
 	c.Assume("strconv.FormatFloat(-1 precision) yields the shortest round-trip digits; correctness of the re-serialiser as a whole (fixed point, value preservation) is not decided")
+	// "any JSON object or array": the canonicalizer answers every input with bytes or an error — its index expressions,
+	// slices and type assertions are bounded or reviewed (the C19 rules on the canonicalizer's own functions)
+	c.only(runC19, "C19.B::internal/jsoncanonicalizer.", "C19.A::internal/jsoncanonicalizer.")
+	c.Min("C19.B", 5)
 }
 
 func keysOfBool(m map[string]bool) []string {
@@ -1568,6 +1572,36 @@ func (c *Ctx) jcsScannerRules(tr *ssa.Function) {
 		})
 		var bad []string
 		n := 0
+		governedIn := map[*ssa.Function][]*ssa.BasicBlock{}
+		defer func() {
+			// K5g nothing but white space after the value: every exit of Transform lies behind the loop that walks what is
+			// left of the input (in Transform itself, or in a closure without parameters or results that it calls) — an
+			// exit that skips it accepts `[1,2]]`, two different byte strings with one canonical form and one hash
+			var heads []*ssa.BasicBlock
+			heads = append(heads, governedIn[tr]...)
+			forEachInstr(tr, func(in ssa.Instruction) {
+				if cl, ok := in.(*ssa.Call); ok {
+					for _, g := range c.Callees(&cl.Call) {
+						if len(governedIn[g]) > 0 && g.Parent() != nil && g.Signature.Params().Len() == 0 && g.Signature.Results().Len() == 0 {
+							heads = append(heads, cl.Block())
+						}
+					}
+				}
+			})
+			okT := len(heads) > 0
+			var skipped []string
+			for _, r := range returnsOf(tr) {
+				dom := false
+				for _, h := range heads {
+					dom = dom || h.Dominates(r.Block())
+				}
+				if !dom {
+					okT = false
+					skipped = append(skipped, c.pos(r.Pos())+": exit of Transform not behind the trailing-input loop")
+				}
+			}
+			c.Check("C05.K5", "trailing-input:walked-before-every-exit", okT, tr.Pos(), fmt.Sprintf("%d loop(s) over the rest of the input at Transform's top level; every exit lies behind one", len(heads)), skipped...)
+		}()
 		if pos != nil {
 			isPos := func(v ssa.Value) bool {
 				switch x := v.(type) {
@@ -1635,6 +1669,7 @@ func (c *Ctx) jcsScannerRules(tr *ssa.Function) {
 						continue
 					}
 					n++
+					governedIn[f] = append(governedIn[f], l.header)
 					// blocks that move the position: a store to it, or a call (the readers move it)
 					cut := map[edge]bool{}
 					moves := map[*ssa.BasicBlock]bool{}
@@ -1683,7 +1718,121 @@ func (c *Ctx) jcsScannerRules(tr *ssa.Function) {
 		}
 		c.Check("C05.K5", "position-loops:advance-on-every-round", pos != nil && n > 0 && len(bad) == 0, tr.Pos(), fmt.Sprintf("%d loop(s) governed by the input position; each moves it (a store, or a call of one of the readers) on every way back to its head", n), bad...)
 	}
-	c.Min("C05.K5", 5)
+	// K5f closed set of refusals: "any JSON object or array" has a canonical form — the scanner says no for the syntax
+	// errors of the grammar (and for what strconv's number and hex readers refuse) and for nothing else: every error that
+	// can reach the error variable Transform hands back is one of the documented ones. A refusal of its own (a nesting
+	// limit, a number grammar narrower than strconv's) takes valid JSON away from "any".
+	{
+		var cell *ssa.Alloc
+		forEachInstr(tr, func(in ssa.Instruction) {
+			if al, ok := in.(*ssa.Alloc); ok && isErrType(derefT(al.Type())) {
+				for _, r := range returnsOf(tr) {
+					if len(r.Results) == 2 {
+						if ld, isLd := r.Results[1].(*ssa.UnOp); isLd && ld.X == ssa.Value(al) {
+							cell = al
+						}
+					}
+				}
+			}
+		})
+		got := map[string]bool{}
+		if cell != nil {
+			var origins func(v ssa.Value, f *ssa.Function, msg bool, d int)
+			origins = func(v ssa.Value, f *ssa.Function, msg bool, d int) {
+				if d > 5 {
+					got["?:"+c.Path(v, nil)] = true
+					return
+				}
+				switch x := v.(type) {
+				case *ssa.Const:
+					if x.IsNil() {
+						return
+					}
+				case *ssa.Parameter:
+					i := paramIndex(x)
+					n := 0
+					for _, g := range fns {
+						for _, cl := range callsOf(g, f) {
+							if i < len(cl.Call.Args) {
+								n++
+								origins(cl.Call.Args[i], g, msg, d+1)
+							}
+						}
+					}
+					if n > 0 {
+						return
+					}
+				case *ssa.Call:
+					if g := x.Call.StaticCallee(); g != nil && (g.String() == "errors.New" || g.String() == "fmt.Errorf") {
+						origins(x.Call.Args[0], f, true, d+1)
+						return
+					}
+				case *ssa.Extract:
+					if cl, isC := x.Tuple.(*ssa.Call); isC {
+						if g := cl.Call.StaticCallee(); g != nil {
+							got["err:"+short(g.String())] = true
+							return
+						}
+					}
+				case *ssa.Phi:
+					for _, e := range x.Edges {
+						origins(e, f, msg, d+1)
+					}
+					return
+				case *ssa.MakeInterface:
+					origins(x.X, f, msg, d+1)
+					return
+				}
+				if msg {
+					first := strings.Split(c.concatForm(v, nil), " ++ ")[0]
+					got["msg:"+first] = true
+					return
+				}
+				got["?:"+c.Path(v, nil)] = true
+			}
+			for _, f := range fns {
+				if f.Blocks == nil {
+					continue
+				}
+				forEachInstr(f, func(in ssa.Instruction) {
+					st, ok := in.(*ssa.Store)
+					if !ok {
+						return
+					}
+					target := st.Addr
+					if fv, isFV := target.(*ssa.FreeVar); isFV {
+						target = bindingOfFV(fv)
+					}
+					if target != ssa.Value(cell) {
+						return
+					}
+					origins(st.Val, f, false, 0)
+				})
+			}
+		}
+		want := []string{
+			`err:internal/jsoncanonicalizer.NumberToJSON`, `err:strconv.ParseFloat`, `err:strconv.ParseUint`,
+			`msg:"Duplicate key: "`, `msg:"Expected '"`, `msg:"Improperly terminated JSON object"`, `msg:"Missing argument"`, `msg:"Missing surrogate"`,
+			`msg:"Unexpected EOF reached"`, `msg:"Unexpected escape: \\"`, `msg:"Unexpected non-ASCII character"`, `msg:"Unterminated string literal"`,
+		}
+		var gs []string
+		for g := range got {
+			gs = append(gs, g)
+		}
+		sort.Strings(gs)
+		var extra []string
+		for _, g := range gs {
+			known := false
+			for _, w := range want {
+				known = known || w == g
+			}
+			if !known {
+				extra = append(extra, g)
+			}
+		}
+		c.Check("C05.K5", "scanner:closed-set-of-refusals", cell != nil && len(gs) >= 9 && len(extra) == 0, tr.Pos(), fmt.Sprintf("errors that reach the error Transform hands back: %v; outside the documented syntax errors: %v", gs, extra))
+	}
+	c.Min("C05.K5", 7)
 }
 
 // derived0: v and what it is converted from (conversions, φ), backwards.
